@@ -89,7 +89,7 @@ static void c17_warm()
 {
     (void)u"id"_s; (void)u"type"_s; (void)u"stamp"_s; (void)u"jid"_s; (void)u"to"_s; (void)u"by"_s; (void)u"thread"_s; (void)u"reason"_s;
     (void)u"password"_s; (void)u"parent"_s; (void)u"nick"_s; (void)u"namespace"_s; (void)u"name"_s; (void)u"start"_s; (void)u"end"_s;
-    (void)u"for"_s; (void)u"from"_s; (void)u"lang"_s; (void)u"code"_s; (void)u"body"_s; (void)u"desc"_s; (void)u"yyyyMMddThh:mm:ss"_s;
+    (void)u"for"_s; (void)u"from"_s; (void)u"lang"_s; (void)u"code"_s; (void)u"body"_s; (void)u"desc"_s; (void)u"yyyyMMddThh:mm:ss"_s; (void)u"delivered"_s; (void)u"true"_s;
 }
 static void c17_base(QXmppMessage &m)
 {
@@ -249,6 +249,23 @@ CHK(fallback_marker)
     const auto &b = m.fallbackMarkers();
     bool ok = a.size() >= 1 && a.size() <= 2 && (alone || true) && a.first().forNamespace() == b.first().forNamespace() && a.last().forNamespace() == b.first().forNamespace();
     vp_assert(ok, "C17 (iii) fallback marker restored (from either part)");
+}
+
+// XEP-0033 extended addresses (QXmppStanza): routing data.  QXmppMessage::toXml writes them in EVERY mode (QXmppStanza::extensionsToXml
+// is called without a mode, "shared tail"), QXmppStanza::parse reads them in every mode; serializeExtensions (the real envelope
+// content) does not write them (checked in h_envelope).
+FIELD(addresses, BOTH, 1, u"addresses", ns_extended_addressing)
+SET(addresses)
+{
+    QXmppExtendedAddress a;
+    a.setJid(S1);
+    a.setType(S1);
+    m.setExtendedAddresses({ a });
+}
+CHK(addresses)
+{
+    auto a = r.extendedAddresses(), b = m.extendedAddresses();
+    vp_assert(a.size() >= 1 && a.size() <= 2 && a.first().jid() == b.first().jid() && a.first().type() == b.first().type() && (alone || true), "C17 (iii) extended addresses restored (from either part)");
 }
 
 // ================= sensitive fields =================
@@ -470,8 +487,8 @@ FIELD_D12(call_invite, u"invite", ns_call_invites, set_call_invite_, same_call_i
 
 
 // ================= composite instances =================
-#define C17_NPUB_ALLSET 12   // fallback body, private, 4 hints, 2 stanza ids, origin id, mix, encryption, fallback marker
-#define C17_NSENS_ALLSET 24  // 23 sensitive elements + fallback marker
+#define C17_NPUB_ALLSET 13   // fallback body, private, 4 hints, 2 stanza ids, origin id, mix, encryption, fallback marker, addresses
+#define C17_NSENS_ALLSET 25  // 23 sensitive elements + fallback marker + addresses (toXml only)
 static void set_all_public(QXmppMessage &m)
 {
     set_e2ee_fallback_body(m);
@@ -484,6 +501,7 @@ static void set_all_public(QXmppMessage &m)
     set_mix_user(m);
     set_eme(m);
     set_fallback_marker(m);
+    set_addresses(m);
 }
 static void set_all_sensitive(QXmppMessage &m)
 {
@@ -525,6 +543,7 @@ static void chk_all(const QXmppMessage &m, const QXmppMessage &r, bool withFallb
     chk_mix_user(m, r, false);
     chk_eme(m, r, false);
     chk_fallback_marker(m, r, false);
+    chk_addresses(m, r, false);
     chk_body(m, r, false);
     chk_subject(m, r, false);
     chk_thread(m, r, false);
@@ -558,7 +577,7 @@ static bool c17_whitelisted(const QDomElement &c, const QString &fallbackBody)
     return (tag == u"private" && ns == ns_carbons) ||
         (ns == ns_message_processing_hints && (tag == u"no-permanent-store" || tag == u"no-store" || tag == u"no-copy" || tag == u"store")) ||
         ((tag == u"stanza-id" || tag == u"origin-id") && ns == ns_sid) || (tag == u"mix" && ns == ns_mix) || (tag == u"encryption" && ns == ns_eme) ||
-        (tag == u"fallback" && ns == ns_fallback_indication);
+        (tag == u"fallback" && ns == ns_fallback_indication) || (tag == u"addresses" && ns == ns_extended_addressing);
 }
 // every extension at once (structure concrete, all values symbolic)
 extern "C" void h_allset()
@@ -572,8 +591,8 @@ extern "C" void h_allset()
     unsigned np = vp_c17_nch(&t.pub), nsn = vp_c17_nch(&t.sens), na = vp_c17_nch(&t.all);
     vp_assert(np == C17_NPUB_ALLSET, "C17 (i) public part of the full message: exactly the elements of the whitelisted fields");
     vp_assert(nsn == C17_NSENS_ALLSET, "C17 (ii) sensitive part of the full message: exactly the sensitive elements and the fallback marker");
-    vp_assert(na == C17_NPUB_ALLSET - 1 + C17_NSENS_ALLSET - 1, "C17 (ii) unsplit message: every element once (explicit fallback body aside)");
-    vp_assert(vp_c17_is_split(&t.all, &t.pub, &t.sens, 1, 1), "C17 (ii) E(All) = E(Public) + E(Sensitive): each element in exactly one part (fallback body / fallback marker aside)");
+    vp_assert(na == C17_NPUB_ALLSET - 1 + C17_NSENS_ALLSET - 2, "C17 (ii) unsplit message: every element once (explicit fallback body aside)");
+    vp_assert(vp_c17_is_split(&t.all, &t.pub, &t.sens, 1, 2), "C17 (ii) E(All) = E(Public) + E(Sensitive): each element in exactly one part (fallback body aside; fallback marker and addresses are shared)");
     bool wl = true;
     for (unsigned i = 0; i < C17_NPUB_ALLSET; i++) {
         QDomElement c;
@@ -632,7 +651,7 @@ extern "C" void h_envelope()
         w.writer()->writeEndElement();
         content = w.root();
     }
-    vp_assert(vp_c17_nch(&outer) == C17_NPUB_ALLSET && vp_c17_nch(&content) == C17_NSENS_ALLSET, "C17 (i)(ii) outer stanza / envelope content hold the public / sensitive elements");
+    vp_assert(vp_c17_nch(&outer) == C17_NPUB_ALLSET && vp_c17_nch(&content) == C17_NSENS_ALLSET - 1, "C17 (i)(ii) outer stanza / envelope content hold the public / sensitive elements");
     QXmppMessage r;
     vp_c17_unknown_reset();
     r.parse(outer, QXmpp::ScePublic);
@@ -726,7 +745,7 @@ static void c17_ni(bool publicPart, bool baseFull)
     vp_assert(publicPart ? eq : true, "C17 (i) the public part does not depend on any sensitive field (non-interference)");
     vp_assert(publicPart ? true : eq, "C17 (ii) the sensitive part does not depend on any whitelisted field (non-interference; fallback markers are shared)");
     unsigned n = vp_c17_nch(&b);
-    unsigned expect = !baseFull ? 0 : (publicPart ? C17_NPUB_ALLSET : C17_NSENS_ALLSET);
+    unsigned expect = !baseFull ? 0 : (publicPart ? C17_NPUB_ALLSET : C17_NSENS_ALLSET - 1);
     vp_assert(n == expect, "C17 (i)(ii) number of elements of the part");
 }
 // public part: every whitelisted field set / none set, ANY combination of sensitive fields on top
